@@ -35,13 +35,15 @@ pub struct Calls {
     ok_calls: u64,
     notable: Vec<Value>,
     pub stopped: bool,
+    /// keep issuing calls after one returned an error (cursor programs): later calls must not panic
+    pub keep_going: bool,
     /// largest number of block loads (absolute seeks on the source) during one public call
     max_loads: u64,
 }
 
 impl Calls {
     fn new() -> Calls {
-        Calls { ok_calls: 0, notable: Vec::new(), stopped: false, max_loads: 0 }
+        Calls { ok_calls: 0, notable: Vec::new(), stopped: false, keep_going: false, max_loads: 0 }
     }
     /// Runs one public call; returns its value when it returned ok.
     fn call<T>(&mut self, op: &str, f: impl FnOnce() -> Result<T, &'static str>) -> Option<T> {
@@ -66,7 +68,7 @@ impl Calls {
         } else {
             self.notable.push(json!({"op": op, "res": res, "fired": fired}));
         }
-        if res != "ok" {
+        if res == "panic" || (res != "ok" && !self.keep_going) {
             self.stopped = true;
         }
         val
@@ -93,6 +95,7 @@ fn reader_program(bytes: Rc<Vec<u8>>, probes: Vec<Vec<u8>>, variant: u64) -> Pro
         match variant % 4 {
             0 | 1 => {
                 let Some(reader) = open(c) else { return };
+                c.keep_going = true;
                 let Some(mut cur) = c.call("into_cursor", move || reader.into_cursor().map_err(|e| class(&e))) else { return };
                 if variant % 4 == 0 {
                     // scans in both directions with seeks in between
